@@ -86,11 +86,18 @@ def is_yield_call(call):
   d = call_name(call) or ''
   if a is None:
     return False
-  if d in ('gevent.sleep', 'gevent.joinall', 'gevent.killall', 'gevent.wait', 'time.sleep'):
+  if d in ('gevent.killall', 'killall'):
+    for k in call.keywords:
+      if k.arg == 'block' and isinstance(k.value, ast.Constant) and k.value.value is False:
+        return False
+    return True      # gevent.killall blocks by default
+  if d in ('gevent.sleep', 'gevent.joinall', 'gevent.wait', 'time.sleep'):
     return True
   if a == 'wait' and isinstance(call.func, ast.Attribute):
     return True
   if a == 'get' and isinstance(call.func, ast.Attribute) and not call.args:
+    if U(call.func.value).endswith(('_tag_pool', '_pool')):
+      return False  # TagPool.get() is plain bookkeeping
     return True     # AsyncResult.get() / Queue.get(); dict.get always has a key argument
   if a == 'join' and isinstance(call.func, ast.Attribute) and not isinstance(call.func.value, ast.Constant):
     return not call.args or d.endswith('greenlet.join')
